@@ -124,7 +124,11 @@ func HandleGasError(ctx sdk.Context, contract *vm.Contract, initialGas sdk.Gas, 
 				ctx = ctx.WithKVGasConfig(storetypes.GasConfig{}).
 					WithTransientKVGasConfig(storetypes.GasConfig{})
 			default:
-				panic(r)
+				// Any other panic (e.g. an arithmetic overflow inside an SDK keeper that was handed an extreme
+				// argument) fails this call, like an error returned by the keeper. If it escaped, baseapp would
+				// abort the whole transaction after the fees have been deducted: no gas is refunded and the
+				// transaction reports gas_used = 0.
+				*err = fmt.Errorf("precompile panicked: %v", r)
 			}
 		}
 	}
